@@ -323,9 +323,10 @@ def make_numpy(it):
     def hstack(it, xs, **k):
         if isinstance(xs, Opaque) or getattr(it, "lenient_numpy", False):
             return Opaque("np.hstack(...)")
-        xs = list(xs)
+        xs = [x for x in xs if not (isinstance(x, real_np.ndarray) and x.size == 0)]
         if any(isinstance(x, Opaque) for x in xs):
             return Opaque("np.hstack([... unknown ...])")
+        xs = [y for x in xs for y in (x.parts if isinstance(x, Cat) else [x])]
         if all(isinstance(x, (Arr, Series)) for x in xs):
             return Cat([_arr(x) for x in xs])
         raise EngineError("hstack of non-arrays")
@@ -947,8 +948,22 @@ def pyscalar_attr(it, x, name):
     return NotImplemented
 
 
+def cat_attr(it, c, name):
+    if name == "size":
+        tot = None
+        for part in c.parts:
+            n = part.sym_len(it) if hasattr(part, "sym_len") else len(part)
+            tot = n if tot is None else it.binop("+", tot, n)
+        return tot if tot is not None else 0
+    if name == "astype":
+        return Native(lambda it, t=None, **k: Cat([it.getattr(part, "astype").fn(it, t) if hasattr(it.getattr(part, "astype"), "fn") else part
+                                                   for part in c.parts]), name="astype")
+    return NotImplemented
+
+
 def install(it):
     tabletheory.install(it)
+    it.attr_hooks.append((Cat, cat_attr))
     it.attr_hooks.append(((bool, int, float), pyscalar_attr))
     it.attr_hooks.append((Mat, mat_attr))
     it.attr_hooks.append((Rows, rows_attr))
